@@ -126,19 +126,19 @@ func init() {
 	})
 	// imports
 	reg("import-ambient-name-clash", 1, editCase(EditOpts{
-		ExtraImports: []string{`"verifharness/genout/c19lib/errors"`},
+		ExtraImports: []string{`"verifharness/harness/c19/lib/errors"`},
 		BodyFor:      map[string]string{"queryResolver.Todos": "\n\tpanic(errors.Wrap(\"x\"))\n"}}))
 	reg("import-alias-on-template-path", 1, editCase(EditOpts{
 		ExtraImports: []string{`f "fmt"`},
 		BodyFor:      map[string]string{"queryResolver.Todos": "\n\tpanic(f.Errorf(\"x\"))\n"}}))
 	reg("import-alias-suffix-of-path", 1, editCase(EditOpts{
-		ExtraImports: []string{`lib "verifharness/genout/c19lib/mylib"`},
+		ExtraImports: []string{`lib "verifharness/harness/c19/lib/mylib"`},
 		BodyFor:      map[string]string{"queryResolver.Todos": "\n\tpanic(fmt.Errorf(\"x %d\", lib.F()))\n"}}))
 	reg("import-alias-version-suffix", 1, editCase(EditOpts{
-		ExtraImports: []string{`v2 "verifharness/genout/c19lib/v2"`},
+		ExtraImports: []string{`v2 "verifharness/harness/c19/lib/v2"`},
 		BodyFor:      map[string]string{"queryResolver.Todos": "\n\tpanic(fmt.Errorf(\"x %d\", v2.G()))\n"}}))
 	reg("import-benign-aliases", 2, editCase(EditOpts{
-		ExtraImports: []string{`str "strings"`, `. "math"`, `_ "embed"`, `deep "verifharness/genout/c19lib/v2"`, `"verifharness/genout/c19lib/mylib"`},
+		ExtraImports: []string{`str "strings"`, `. "math"`, `_ "embed"`, `deep "verifharness/harness/c19/lib/v2"`, `"verifharness/harness/c19/lib/mylib"`},
 		BodyFor:      map[string]string{"queryResolver.Todos": "\n\t_ = str.ToUpper(\"a\")\n\t_ = Pi\n\tpanic(fmt.Errorf(\"x %d %d\", deep.G(), mylib.F()))\n"}}))
 	// doc comments
 	reg("doc-directive", 2, editCase(EditOpts{
